@@ -578,6 +578,48 @@ SPECS = {
 }
 
 
+def sequential_stop_stage(rep, tier, seed):
+    """C08 on ONE thread (sim harness, model correspondence): Stop() issued before Run() — possibly with user-driven Steps in between,
+    which drain the wake-up datagram — must end that Run at once; Stop() from a task inside Run ends it after that step."""
+    import drivercases as dc
+    from asyncchecks import project_async
+    rnd = random.Random(seed * 13 + 5)
+    n = {"quick": 60, "thorough": 600}.get(tier, 60)
+    cases = []
+    for i in range(n):
+        ops = [(1, [7]), (43, []), (2, []), (40, [])]
+        kind = i % 4
+        if kind == 0:
+            ops += [(43, [])] * rnd.choice([1, 2]) + [(42, [])]
+        elif kind == 1:
+            ops += [(43, [])] + [(41, [rnd.choice([0, 0, 3])])] * rnd.choice([1, 2, 3]) + [(42, [])]
+        elif kind == 2:
+            ops += [(50, [1, 2, rnd.choice([0, 2]), 7]), (42, [])]                   # a task that calls Stop()
+        else:
+            ops += [(43, []), (42, []), (50, [1, 2, 0, 7]), (42, [])]                # Run again: needs a new Stop (from the task)
+        ops += [(44, [])]
+        c = Case("seqstop%d" % i, ops, [], [], {"kind": "hand", "instant": True, "pipe_fd": 1001})
+        cases.append(c)
+    import c14
+    dc.grow(cases, c14.benign, rnd)      # the pipe is readable exactly while a wake-up datagram is pending; polls time out otherwise
+    exe = harness_exe("sim", "plain")
+    ti, tm = run_exe(exe, cases), run_exe(model_exe(), cases)
+    out = []
+    ndiv = 0
+    for c in cases:
+        a, b = ti.get(c.id) or [], tm.get(c.id) or []
+        runs_wanted = sum(1 for k, x in b if k == 20 and x[0] == 42 and x[1] == 1)      # what the model says
+        runs_done = sum(1 for k, x in a if k == 20 and x[0] == 42 and x[1] == 1)
+        if runs_done < runs_wanted:
+            out.append(("seqstop", "# Run() did not return although a Stop() was pending (%d of %d Runs returned; the implementation went on polling)\n%s# --- implementation trace\n%s\n# --- model trace\n%s\n"
+                        % (runs_done, runs_wanted, c.text(), fmt_trace(a), fmt_trace(b))))
+        elif project_async(a) != project_async(b):
+            ndiv += 1
+    rep.cov["sequential_cases"] = len(cases)
+    rep.cov["sequential_diverging"] = ndiv
+    return out, ndiv
+
+
 def run_check(pid, tier, seed, extra_monitor=None):
     module, theorems, kinds, flavour = SPECS[pid]
     rep = Report(pid, tier, seed)
@@ -633,9 +675,17 @@ def run_check(pid, tier, seed, extra_monitor=None):
     rep.cov["monitor_failures"] = len(failing)
     rep.assumptions = ["one thread runs at a time (deterministic scheduler with virtual mutexes): data races below the granularity of lock operations and system calls are "
                        "not explored here (thorough tier adds a ThreadSanitizer/ASan build)", "OS mutex fairness for the clause 'the call returns'"]
+    seq_fail = []
+    if pid == "C08":
+        seq_fail, seq_div = sequential_stop_stage(rep, tier, seed)
+        rep.cov["evaluations"] += rep.cov.get("sequential_cases", 0)
+        for k, (tag, text) in enumerate(seq_fail[:2]):
+            rep.violation("%s%d" % (tag, k), text)
+        if seq_div and not seq_fail:
+            problems = problems + ["sequential Stop/Step/Run cases: model and implementation diverge on %d cases" % seq_div]
     for k, (txt, meta, w, tr) in enumerate(failing[:3]):
         rep.violation("fail%d" % k, "# %s\n%s# --- trace\n%s\n" % (w, txt, fmt_trace(tr)))
-    if not failing and (diverging or problems):
+    if not failing and not seq_fail and (diverging or problems):
         t = ""
         if problems:
             t += "proof obligations that no longer check:\n" + "\n".join(problems) + "\n"
